@@ -146,7 +146,9 @@ class PythonParserGenerator(IndentPrintMixin, NodeWalker):
                 \ndef {name}(self, {self.ctx_stack[0]}: Ctx) -> Any:
             """)
         with self.indent():
-            self.print(self.walk(rule.exp))
+            # NOTE: a based rule parses the base rule's expression and then its own
+            exp = rule.rhs if isinstance(rule, g.BasedRule) else rule.exp
+            self.print(self.walk(exp))
 
     def walk_BasedRule(self, rule: g.BasedRule):
         self.walk_Rule(rule)
